@@ -26,6 +26,16 @@ def Val.isNull : Val → Bool
   | .null => true
   | _ => false
 
+/-! ### a stable sort (structurally recursive, so that concrete instances evaluate in the kernel) -/
+def insertSorted {α} (le : α → α → Bool) (x : α) : List α → List α
+  | [] => [x]
+  | y :: ys => if le x y then x :: y :: ys else y :: insertSorted le x ys
+
+/-- insertion sort from the right: stable (an element goes in front of the first later element it is `≤` to) -/
+def stableSort {α} (le : α → α → Bool) : List α → List α
+  | [] => []
+  | x :: xs => insertSorted le x (stableSort le xs)
+
 /-! ### Kleene logic -/
 def and3 : Tri → Tri → Tri
   | some false, _ => some false
@@ -80,6 +90,15 @@ def cmp3 (op : CmpOp) : Val → Val → Tri
 def in3 (v : Val) : List Val → Tri
   | [] => some false
   | c :: cs => or3 (cmp3 .eq v c) (in3 v cs)
+
+/-- `v op ANY (x₁ … xₙ)` = `v op x₁ OR … OR v op xₙ`;  `v op ALL (…)` = the conjunction (empty: FALSE / TRUE) -/
+def any3 (op : CmpOp) (v : Val) : List Val → Tri
+  | [] => some false
+  | x :: xs => or3 (cmp3 op v x) (any3 op v xs)
+
+def all3 (op : CmpOp) (v : Val) : List Val → Tri
+  | [] => some true
+  | x :: xs => and3 (cmp3 op v x) (all3 op v xs)
 
 /-! ### values used as conditions; a small expression language -/
 /-- truth of a non-NULL value used as a condition (boolean-typed in the fragment; for other types the Python rule) -/
@@ -221,9 +240,115 @@ def limitOffset (limit : Option Nat) (offset : Nat) (rows : List Row) : List Row
   | none => rows.drop offset
   | some n => (rows.drop offset).take n
 
+/-- SELECT projs FROM rows WHERE cond (a row is kept iff the condition is TRUE; `none` = no WHERE / SELECT *) -/
+def keeps (cond : Option (Row → Val)) (r : Row) : Bool :=
+  match cond with
+  | some c => truthy (c r)
+  | none => true
+
+def projRow (projs : Option (Row → Row)) (r : Row) : Row :=
+  match projs with
+  | some p => p r
+  | none => r
+
+def selectWhere (cond : Option (Row → Val)) (projs : Option (Row → Row)) (rows : List Row) : List Row :=
+  (rows.filter (keeps cond)).map (projRow projs)
+
 /-- ORDER BY items … LIMIT n OFFSET k: a stable sort by the ORDER BY comparison (ties keep the input order, which is
     one of the orders SQL allows), then the slice -/
 def orderBy (items : List ((Row → Val) × Bool × Bool)) (limit : Option Nat) (offset : Nat) (rows : List Row) : List Row :=
-  limitOffset limit offset (rows.mergeSort fun a b => cmpRows items a b != .gt)
+  limitOffset limit offset (stableSort (fun a b => cmpRows items a b != .gt) rows)
+
+end SqlglotModel.Sem
+
+/-! ## single-table SELECT (the fragment `single_table_query_spec` is about) -/
+namespace SqlglotModel.Sem
+
+inductive AggFn where
+  | sum | count | min | max
+deriving DecidableEq, Repr
+
+/-- reference value of an aggregate over a column's values: NULLs ignored, COUNT of nothing 0, the others NULL;
+    MIN / MAX: the extremum (unique, `Proofs/Exec.extremum_unique`), computed by a left fold -/
+def extremum (dir : Ordering) : List Val → Val
+  | [] => .null
+  | v :: vs => vs.foldl (fun m x => if Val.cmp x m = dir then x else m) v
+
+def AggFn.apply : AggFn → List Val → Val
+  | .sum, vs => aggSum vs
+  | .count, vs => aggCount vs
+  | .min, vs => extremum .lt (nonNull vs)
+  | .max, vs => extremum .gt (nonNull vs)
+
+/-- one output column of the SELECT list -/
+inductive Out where
+  | col (src : Nat) (alias : String)                 -- a table column (under GROUP BY: one of the keys)
+  | agg (fn : AggFn) (src : Nat) (alias : String)    -- AGG(column)
+deriving Repr
+
+def Out.alias : Out → String
+  | .col _ a => a
+  | .agg _ _ a => a
+
+/-- HAVING AGG(column) op literal -/
+structure Having where
+  fn : AggFn
+  src : Nat
+  op : CmpOp
+  lit : Val
+deriving Repr
+
+/-- SELECT [DISTINCT] outs FROM t [WHERE w] [GROUP BY keys [HAVING h]] [ORDER BY output positions] [LIMIT n OFFSET k].
+    `group = none`: no aggregation (every `Out` is `.col`); `some keys`: aggregation (keys = [] for a global aggregate). -/
+structure Query where
+  cols : List String
+  where_ : Option Expr
+  group : Option (List Nat)
+  outs : List Out
+  having : Option Having
+  distinct : Bool
+  order : List (Nat × Bool × Bool)
+  limit : Option Nat
+  offset : Nat
+deriving Repr
+
+def colVals (rows : List Row) (c : Nat) : List Val := rows.map fun r => getCol r c
+
+/-- value of an output column for a group (`rep` = any row of the group; all agree on the keys) -/
+def Out.eval (rep : Row) (grp : List Row) : Out → Val
+  | .col c _ => getCol rep c
+  | .agg f c _ => f.apply (colVals grp c)
+
+def havingHolds (h : Option Having) (grp : List Row) : Bool :=
+  match h with
+  | none => true
+  | some h => cmp3 h.op (h.fn.apply (colVals grp h.src)) h.lit = some true
+
+/-- the groups of a GROUP BY: one per distinct key, in order of first occurrence; without keys one group, also when empty -/
+def groupsOf (keys : List Nat) (rows : List Row) : List (List Row) :=
+  if keys = [] then [rows]
+  else (dedup (rows.map fun r => keys.map (getCol r))).map fun k => rows.filter fun r => keys.map (getCol r) = k
+
+def whereHolds (w : Option Expr) (r : Row) : Bool :=
+  match w with
+  | none => true
+  | some e => truthy (eval r e)
+
+/-- rows before DISTINCT / ORDER BY / LIMIT -/
+def Query.body (q : Query) (rows : List Row) : List Row :=
+  let kept := rows.filter (whereHolds q.where_)
+  match q.group with
+  | none => kept.map fun r => q.outs.map (Out.eval r [r])
+  | some keys =>
+    ((groupsOf keys kept).filter (havingHolds q.having)).map fun g => q.outs.map (Out.eval (g.headD []) g)
+
+def orderItems (order : List (Nat × Bool × Bool)) : List ((Row → Val) × Bool × Bool) :=
+  order.map fun (c, d, nf) => ((fun r => getCol r c), d, nf)
+
+/-- the answer of the query: a bag when there is no ORDER BY, a sequence under a total one -/
+def Query.eval (q : Query) (rows : List Row) : List Row :=
+  let b := q.body rows
+  let d := if q.distinct then dedup b else b
+  orderBy (orderItems q.order) q.limit q.offset d
 
 end SqlglotModel.Sem
